@@ -12,6 +12,8 @@ trap 'git -C /repo checkout -- . 2>/dev/null; git -C /repo clean -fdq -- src tes
 if [ $MODE = sens ]; then FILES=$(ls sensitivity/*.patch); else FILES=$(ls seeded/*/patch.diff); fi
 OUT=${SENS_OUT:-/verif/sensitivity/RESULTS.txt}
 [ $MODE = seeded ] && OUT=${SENS_OUT:-/verif/seeded/RESULTS.txt}
+# a filtered run does not replace the full results file
+[ $# -gt 0 ] && OUT=/verif/target/sensitivity-partial.txt
 : > "$OUT.tmp"
 fail=0
 for f in $FILES; do
